@@ -45,6 +45,9 @@ func (t *target) SupportsNonce() bool { return false }
 
 // RawConfig: the endpoints offer no unguarded assignment.
 func (t *target) RawConfig(dec, enc int) (string, bool) { return "", false }
+
+// RestoreRaw: the endpoint is the only way in.
+func (t *target) RestoreRaw(blob string, force bool) (string, bool) { return "", false }
 func (t *target) FailPut(k int)       { t.fs.FailAt = k }
 
 // call performs one request; returns the response data and the canonical error class ("" = success).
